@@ -44,6 +44,8 @@ func init() {
 			ruleDistinct(r)
 			ruleIndexLoopDeletion(r, []string{metricPkg, enginePkg, dockerlogPkg})
 			ruleOffloadProvenance(r)
+			ruleGetFloatKinds(r)
+			ruleJSONPathStateFresh(r)
 		},
 	})
 }
